@@ -437,6 +437,9 @@ impl PayProof {
             .with(&params.range_constraint_parameters)
             .with(&old_state.nonce().as_scalar())
             .with(&CLOSE_SCALAR)
+            // integrate the commitment scalars revealed for the old nonce and the close tag
+            .with(&old_pay_token_proof_builder.conjunction_commitment_scalars()[1])
+            .with(&close_state_proof_builder.conjunction_commitment_scalars()[1])
             // integrate commitments and commitment scalars from commitment proofs
             .with(&old_revocation_lock_proof_builder)
             .with(&state_proof_builder)
@@ -497,6 +500,9 @@ impl PayProof {
             .with(&params.range_constraint_parameters)
             .with(&public_values.old_nonce.as_scalar())
             .with(&CLOSE_SCALAR)
+            // integrate the commitment scalars revealed for the old nonce and the close tag
+            .with(&self.old_nonce_commitment_scalar)
+            .with(&self.close_tag_commitment_scalar)
             // integrate commitments and commitment scalars from commitment proofs
             .with(&self.old_revocation_lock_proof)
             .with(&self.state_proof)
